@@ -263,13 +263,12 @@ def oracle(line, go):
                 return None
             return represents(t, g, v)
         if cmd == "unmarshal_into":
-            # a pre-populated target: where the Ion value determines the whole result (a slice of plain scalars receiving
-            # a list or sexp) the stored value must represent the Ion value, whatever the target held before
+            # a pre-populated target: where the Ion value determines the whole result (a slice whose elements involve no struct,
+            # map or interface, receiving a list or sexp) the stored value must represent the Ion value, whatever the target held before
             t, j = parse_ty(ts, 2)
             _, j2 = parse_gv(ts, j)
             v, _ = parse_iv(ts, j2)
-            if t[0] == "L" and not mg.contains(t, ("ST", "M", "I", "P", "TIME", "L2")) and t[1][0] not in ("L", "A") \
-                    and v[1][0] in ("list", "sexp"):
+            if t[0] == "L" and not mg.contains(t, ("ST", "M", "I", "TIME")) and v[1][0] in ("list", "sexp"):
                 g, _ = parse_gv(go.split(" "), 1)
                 return represents(t, g, v)
             return None
